@@ -24,7 +24,7 @@ COLS = ["parent", "depth", "height", "num_kernels", "kernel_dur_sum", "first_ker
 
 def gen_cases(seed, tier, n):
     out = []
-    profs = ["cgraph", "cgraph_bwd", "cgraph"]
+    profs = ["cgraph", "cgraph_bwd", "cgraph", "cgraph", "cgraph_bwd", "cgraph", "cgraph", "cgraph_big"]
     for i in range(n):
         c = tracegen.gen_case(seed, i, tracegen.PROFILES[profs[i % len(profs)]])
         c["params"] = {}
@@ -54,6 +54,22 @@ def run_impl(case, d):
                     row.append(v)
                 rows.append(row)
             out[r] = sorted(rows)
+        # a second CallGraph over the same loaded trace (what two analyses in a row do) must report the same columns
+        cg2 = CallGraph(ta.t, ranks=ranks)
+        second = {}
+        for r in ranks:
+            df = cg2.trace_data.get_trace(r)
+            rows = []
+            for rec in df.to_dict("records"):
+                row = [fw.as_int(rec["index"])]
+                for c in COLS:
+                    v = fw.as_int(rec[c])
+                    if c == "parent" and v < 0:
+                        v = -1
+                    row.append(v)
+                rows.append(row)
+            second[r] = sorted(rows)
+        out["second"] = {r: [(a, b_) for a, b_ in zip(out[r], second[r]) if a != b_][:3] for r in ranks}
     except Exception as e:
         import traceback
         out = {"error": type(e).__name__ + ": " + str(e)[:200] + " @ " + traceback.format_exc()[-300:]}
@@ -132,6 +148,9 @@ def compare(case, impl, model):
     if "error" in o:
         return ["CallGraph raised " + o["error"]]
     disc = []
+    for r, dd in (o.get("second") or {}).items():
+        if dd:
+            disc.append(f"rank {r}: a second CallGraph over the same trace reports different stack columns (first, second): {dd[:2]}")
     for (r, rows), (m, checker_ok) in zip(sorted(impl["frames"].items()), model):
         got = o[r]
         if not checker_ok:
@@ -149,7 +168,7 @@ def nontrivial(case, impl):
     o = impl["out"]
     if "error" in o:
         return False
-    return any(x[2] >= 1 and x[4] >= 2 for rows in o.values() for x in rows)
+    return any(x[2] >= 1 and x[4] >= 2 for k, rows in o.items() if k != "second" for x in rows)
 
 
 def _tid0_rows(rows):
@@ -164,6 +183,8 @@ def classify(case, impl, model, disc):
         return None
     for (r, rows), (m, _ok) in zip(sorted(impl["frames"].items()), model):
         t0 = _tid0_rows(rows)
+        if (o.get("second") or {}).get(r):
+            return None
         got = {x[0]: x[1:] for x in o[r]}
         mm = {x[0]: list(x[1:]) for x in m}
         diff = {k for k in set(got) | set(mm) if got.get(k) != mm.get(k)}
